@@ -339,7 +339,7 @@ fn replay(level: usize) {
                                 }
                             }
                         }
-                        let rec = json!({"kind": "ser", "what": what, "r": r, "map": m, "via_new": via_new, "accepted_status_lines": lines, "got_bytes": show(&bytes)});
+                        let rec = json!({"kind": "ser", "vector": v, "what": what, "r": r, "map": m, "via_new": via_new, "accepted_status_lines": lines, "got_bytes": show(&bytes)});
                         if !what.is_empty() {
                             t.bad(rec);
                         } else if let Some(d) = dev {
@@ -356,7 +356,7 @@ fn replay(level: usize) {
                                 rt_checked += 1;
                                 let p = parse_with(&bytes, &cuts);
                                 if !(p.res == "ok" && p.version == version && p.code == code && same_headers(&p.headers, &headers) && p.body == body && !p.over) {
-                                    t.bad(json!({"kind": "roundtrip", "r": r, "map": m, "cuts": cuts, "serialised": show(&bytes),
+                                    t.bad(json!({"kind": "roundtrip", "vector": v, "r": r, "map": m, "cuts": cuts, "serialised": show(&bytes),
                                         "got": {"res": p.res, "version": p.version, "code": p.code, "headers": headers_json(&p.headers), "body": show(&p.body), "read_past_end": p.over}}));
                                     break;
                                 }
@@ -389,7 +389,7 @@ fn replay(level: usize) {
                         let p = parse_with(&wire, &cuts);
                         let ok = p.res == "ok" && p.version == e_version && p.code == e_code && same_headers(&p.headers, &e_headers) && p.body == e_body && !p.over && p.consumed == wire.len();
                         if !ok {
-                            t.bad(json!({"kind": "parse", "wire": show(&wire), "map": m, "cuts": cuts, "expected": exp,
+                            t.bad(json!({"kind": "parse", "vector": v, "wire": show(&wire), "map": m, "cuts": cuts, "expected": exp,
                                 "got": {"res": p.res, "version": p.version, "code": p.code, "headers": headers_json(&p.headers), "body": show(&p.body),
                                         "read_past_end": p.over, "consumed": p.consumed, "of": wire.len()}}));
                             break;
@@ -457,7 +457,7 @@ fn replay(level: usize) {
                     what.push("Set-Cookie after parsing back");
                 }
                 if !what.is_empty() {
-                    t.bad(json!({"kind": "cookie", "what": what, "attrs": attrs, "expected_pair": v["pair"], "expected_attributes": avs, "got": h.value, "serialised": show(&bytes)}));
+                    t.bad(json!({"kind": "cookie", "vector": v, "what": what, "attrs": attrs, "expected_pair": v["pair"], "expected_attributes": avs, "got": h.value, "serialised": show(&bytes)}));
                 } else if t.samples.len() < 8 && attrs.len() == 7 && v["samesite"] == "Lax" && v["maxage"] == 3600 {
                     t.samples.push(json!({"cookie_attrs": attrs, "header_value": h.value}));
                 }
@@ -860,13 +860,15 @@ fn client_replay(level: usize) {
             let e_body = bodies.get(&e_id).cloned().unwrap_or_default();
             let ok = o.res == "ok" && o.code as u64 == exp["code"].as_u64().unwrap() && o.location == exp["location"].as_str().unwrap()
                 && o.id == e_id.to_string() && o.body == e_body
-                && (exp["framing"] == "none" || o.cl == e_body.len().to_string()) && errors.is_empty();
+                && (exp["framing"] == "none" || o.cl == e_body.len().to_string());
+            // `errors` (server-side notes: write failed, client slow to close) are reported with a mismatch but are
+            // not observables of the property and never make one
             if !ok {
                 mism += 1;
                 if first.len() < 20 {
                     first.push(json!({"kind": "client", "follow": follow, "script": script, "expected": exp, "segmentation": seg,
                         "got": {"res": o.res, "code": o.code, "location": o.location, "x_hop": o.id, "content_length": o.cl, "body": show(&o.body), "body_expected": show(&e_body)},
-                        "requests_seen_by_server": log, "server_errors": errors}));
+                        "requests_seen_by_server": log, "server_notes": errors}));
                 }
                 break;
             } else if samples.len() < 3 && script.len() == 4 && n % 5 == 0 {
@@ -936,7 +938,8 @@ fn client_random(n: usize) {
                 "location": e.get("location").cloned().unwrap_or(json!("")), "id": e.get("id").cloned().unwrap_or(json!(0)), "res": "", "body_ok": true}));
         }
         let idn: u64 = o.id.parse().unwrap_or(7777);
-        let body_ok = bodies.get(&idn).map(|b| *b == o.body).unwrap_or(idn == 999 && o.body == b"trap") && errors.is_empty();
+        let body_ok = bodies.get(&idn).map(|b| *b == o.body).unwrap_or(idn == 999 && o.body == b"trap");
+        let _ = &errors;
         out_line(&json!({"ev": "Done", "follow": follow, "host": "", "path": "", "code": o.code, "location": o.location, "id": idn, "res": o.res, "body_ok": body_ok}));
     }
 }
